@@ -228,11 +228,31 @@ func vGenSeq(r *kit.Rand, idx int) *vHistory {
 	var script []vAction
 	for i := 1; i <= n; i++ {
 		a := vAction{Op: "req", Req: i, Model: r.Intn(h.Models), NumCtx: 8, NumGPU: -1, KeepAliveUs: -1, LoadMode: "ok"}
-		if r.Chance(1, 3) {
+		switch r.Intn(6) {
+		case 0, 1:
 			a.NumCtx = kit.Pick(r, []int{8, 16, 2})
 			a.NumGPU = kit.Pick(r, []int{-1, -1, 1, 2})
 			a.NumBatch = kit.Pick(r, []int{0, 64})
 			a.Adapter = kit.Pick(r, []int{0, 0, 1})
+		case 2:
+			// one option pinned, everything else default
+			switch r.Intn(3) {
+			case 0:
+				a.NumGPU = kit.Pick(r, []int{1, 2})
+			case 1:
+				a.NumCtx = kit.Pick(r, []int{16, 2})
+			case 2:
+				a.NumBatch = 64
+			}
+		case 3:
+			// come back to the model and options of an earlier request (e.g. pinned, default, pinned again)
+			if len(script) > 0 {
+				p := script[r.Intn(len(script))]
+				a.Model, a.NumCtx, a.NumGPU, a.NumBatch, a.Adapter = p.Model, p.NumCtx, p.NumGPU, p.NumBatch, p.Adapter
+			}
+		}
+		if len(script) > 0 && r.Chance(1, 3) {
+			a.Model = script[len(script)-1].Model // stay on the model of the previous request
 		}
 		a.KeepOpen = r.Chance(1, 4)
 		a.PingFails = r.Chance(1, 10)
